@@ -632,3 +632,49 @@ def check_problem(case):
         return Fail("all_solutions=True returned %r, expected the images %r of all minimisers" % (got, want),
                     key="problem-all-solutions")
     return None
+
+
+# ---------------------------------------------------------------------------------------------
+# 9. Matrix models (and dicts) after edits that make a variable vanish
+# ---------------------------------------------------------------------------------------------
+def _gen_cancelled(ctx):
+    rng = ctx.rng("c09.cancel")
+    n = ctx.pick(60, 1500)
+    for tname in MATRIX_TYPES:
+        maxdeg = 2 if tname.startswith("Q") else 3
+        for terms in gen_models(rng, n, INT_LABELS[:4], maxdeg, [-2, -1, 1, 2, 0.5], max_terms=4, min_terms=2):
+            vs = variables_of(terms)
+            if len(vs) < 2:
+                continue
+            yield {"type": tname, "terms": terms, "drop": rng.choice(vs), "all": rng.random() < 0.5,
+                   "via": rng.choice(["method", "function"])}
+
+
+@clause("C09.cancelled_terms_matrix", "C09", gen=_gen_cancelled, nontrivial=lambda c: True)
+def check_cancelled(case):
+    """A Matrix-type model from which every term containing one label has been subtracted again (M[k] -= v): the
+    brute-force solvers (method and function) return the minimum and an assignment / all minimisers over exactly
+    the labels of the terms the model still stores - the vanished label must not come back. (For the labelled
+    types the reported `variables` are only upper bounds after such edits, so they are not judged here.)"""
+    tname = case["type"]
+    spin = tname in SPIN_TYPES
+    M = cls_of(tname)(case["terms"])
+    for k, v in case["terms"].items():
+        if case["drop"] in k:
+            M[k] -= v
+    stored = dict(M)
+    if any(case["drop"] in k for k in stored):
+        return Skip("label did not vanish")
+    vs = _labels(stored.keys())
+    q = qv()
+    fn = {"QUBOMatrix": q.utils.solve_qubo_bruteforce, "PUBOMatrix": q.utils.solve_pubo_bruteforce,
+          "QUSOMatrix": q.utils.solve_quso_bruteforce, "PUSOMatrix": q.utils.solve_puso_bruteforce}[tname]
+    best, expected = _expected(stored, vs, spin, lambda a: True)
+    if case["via"] == "method":
+        sol = M.solve_bruteforce(all_solutions=case["all"])
+        obj = best
+    else:
+        obj, sol = fn(M, all_solutions=case["all"])
+    if case["all"]:
+        return _check_all(obj, sol, vs, spin, best, expected)
+    return _check_one(obj, sol, stored, vs, spin, lambda a: True, best)
